@@ -69,6 +69,7 @@ type recorder struct {
 	prevAS   [][]byte
 	steps    []Ev
 	calls    []string
+	cpos     []int // per callback: ScriptIdx*1000000 + OpcodeIdx of the snapshot it was handed (-1: no snapshot)
 	scribble bool
 	limit    int
 	nsteps   int
@@ -78,6 +79,11 @@ type abortExecution struct{ why string }
 
 func (r *recorder) see(name string, s *interpreter.State) {
 	r.calls = append(r.calls, name)
+	if s != nil {
+		r.cpos = append(r.cpos, s.ScriptIdx*1000000+s.OpcodeIdx)
+	} else {
+		r.cpos = append(r.cpos, -1)
+	}
 	if r.scribble && s != nil {
 		for _, st := range [][][]byte{s.DataStack, s.AltStack, s.ElseStack, s.SavedFirstStack} {
 			for k, item := range st {
@@ -314,7 +320,7 @@ func runVM(c vmCase, dbg string) (res vmResult) {
 		}
 		opts = append(opts, interpreter.WithTx(tx, idx, prev))
 	}
-	res = vmResult{rec: &recorder{scribble: dbg == "scribble", limit: len(unlock) + len(lock) + 600, calls: []string{}}}
+	res = vmResult{rec: &recorder{scribble: dbg == "scribble", limit: len(unlock) + len(lock) + 600, calls: []string{}, cpos: []int{}}}
 	var second []string
 	if dbg == "fanout" {
 		opts = append(opts, interpreter.WithDebugger(fanout(res.rec, &second)))
@@ -438,7 +444,8 @@ func vmCmd(args []string) error {
 				}
 			}
 			end["scribbleSameSnapshots"] = sameSnaps
-			end["scribbleSameCalls"] = fmt.Sprint(s.rec.calls) == fmt.Sprint(r.rec.calls)
+			end["scribbleSameCalls"] = fmt.Sprint(s.rec.calls) == fmt.Sprint(r.rec.calls) && fmt.Sprint(s.rec.cpos) == fmt.Sprint(r.rec.cpos)
+			end["cpos"] = r.rec.cpos
 			// debug.NewDebugger fan-out: every attach point, two handlers each
 			fo := runVM(c, "fanout")
 			end["fanout"], end["fanoutErr"] = fo.outcome, fo.errText
